@@ -23,7 +23,8 @@ RULE = ("history = converter kind (unrestricted/year/month/day), base currency, 
         "update with another kind of validity, update with an invalid validity, get_rate over ordered pairs incl. a "
         "currency with itself at dates in/next to/far from the updated periods or the default date, conv(money, cur, "
         "date)}. Oracle: dict {(period, code): last (multiple, term)}; base->x stored rate, x->base its inverse, x->y "
-        "quotient within the 0.5e-6 bound, missing => None; rejected updates change nothing. Non-trivial = history with "
+        "quotient within the 0.5e-6 bound, missing => None; rejected updates change nothing; rate specs are passed as list, "
+        "tuple, iterator or generator. Non-trivial = history with "
         ">= 2 updates of one key or >= 2 periods and a lookup needing inversion or triangulation; distinct by digest")
 FLOORS = {"hist/nontrivial": (0.25, "hist/histories")}
 
